@@ -1,6 +1,8 @@
 """Generators of `pipeline` cases (property C01): a rule and/or default rule whose mechanisms replay a scripted
-outcome vector, the error pipeline, the status overrides of the services, whether the request matches the rule.
+outcome vector, the error pipeline (incl. error handlers whose configuration reads the request), the status overrides
+of the services, whether the request matches the rule, what the client sent (header, query).
 Every random choice comes from the rng handed in."""
+import copy
 import itertools
 
 KINDS = ["argument", "authentication", "authorization", "communication", "timeout", "configuration", "internal",
@@ -14,6 +16,112 @@ ACCEPTS = [None, "*/*", "application/json", "text/plain", "text/html", "applicat
 LOG_LEVELS = ["trace", "debug", "info", "warn", "disabled"]
 CEL_TYPES = ["authentication_error", "authorization_error", "communication_error", "internal_error",
              "precondition_error"]
+
+# --- what the client controls and error-handler configurations may read: the header X-C01-To and the query parameter
+# `to` (None = absent). Header values cannot contain line breaks (net/http refuses to send them); a decoded query
+# parameter can.
+HDR_VALUES = [(None, 30), ("https://login.c01.test/in", 28), ("", 14), ("  ", 14), ("\t", 4), ("%zz :x", 10)]
+Q_VALUES = [(None, 30), ("https://idp.c01.test/login?x=1", 22), ("", 12), ("   ", 10),
+            ("https://a.c01.test/x\nX-Injected: 1", 10), (" \n \n", 8), (":%zz", 8)]
+# `to` templates of the redirect error handler (texts in harness/main/pipeline.go, c01ToTemplates)
+TO_TEMPLATES = [("static", 22), ("fail", 12), ("hdr", 16), ("q", 11), ("path", 4), ("rawq", 5), ("ml-hdr", 9),
+                ("ml-q", 7), ("sel", 6), ("need-q", 4), ("need-q-trim", 4)]
+# realm of the www_authenticate handler: catalogue entry / rule-level `config` (None = "c01" / no rule-level config)
+REALMS = [(None, 55), ("", 10), ("  ", 10), ("c01 realm", 12), ("multi\nline", 13)]
+RULE_REALMS = [(None, 70), ("", 8), ("  ", 7), ("other", 8), ("multi\nline", 7)]
+# request attributes an `if` condition can ask about (CEL texts in harness/main/pipeline.go, c01CondExpr)
+COND_ON = ["hdr", "q", "rawq", "path"]
+
+
+def path_of(hit):
+    return "/c01/some/resource" if hit else "/elsewhere/resource"
+
+
+def render_to(to, req, hit):
+    """what the `to` template named `to` does for the request: (renders?, nominal rendered value or None when the
+    value depends on the entry point). Nominal = as the Envoy service sees the request (HTTP servers trim header
+    values)"""
+    hdr, q = req.get("hdr"), req.get("q")
+    h = hdr or ""
+    qv = q or ""
+    if to in (None, "static"):
+        return True, None
+    if to == "fail":
+        return False, None
+    if to == "hdr":
+        return True, h
+    if to == "q":
+        return True, qv
+    if to == "path":
+        return True, path_of(hit)
+    if to == "rawq":
+        return True, None if q else ""
+    if to == "ml-hdr":
+        return True, "\n  " + h + "\n"
+    if to == "ml-q":
+        return True, "\n" + qv + "\n\n"
+    if to == "sel":
+        return True, h if h else qv
+    if to == "need-q":
+        return (True, qv) if qv else (False, None)
+    if to == "need-q-trim":
+        # sprig `trim` = strings.TrimSpace
+        return (True, qv.strip()) if qv.strip() else (False, None)
+    raise ValueError(to)
+
+
+def render_class(ok, val):
+    if not ok:
+        return "fails"
+    if val is None:
+        return "present"
+    if val == "":
+        return "empty"
+    if val.strip() == "":
+        return "blank"
+    if "\n" in val.strip():
+        return "multi-line"
+    if val.strip() != val:
+        return "padded"
+    return "present"
+
+
+def cond_value(on, req, hit):
+    """truth value of the question `on` (see c01CondExpr) for the request"""
+    if on == "hdr":
+        return (req.get("hdr") or "").startswith("http")
+    if on == "q":
+        return (req.get("q") or "").startswith("http")
+    if on == "rawq":
+        return req.get("q") is not None
+    if on == "path":
+        return bool(hit)
+    raise ValueError(on)
+
+
+def derive(case):
+    """(re)compute everything in the case that is a function of the request: whether / to what the `to` templates
+    render, the truth value of the request-dependent conditions. Called by the generators and after every change the
+    shrinker makes."""
+    req = case.get("req") or {}
+    hit = case.get("hit", True)
+    for key in ("rule", "default"):
+        d = case.get(key)
+        if not d:
+            continue
+        for st in d.get("hand", []) + d.get("fin", []) + d.get("eh", []):
+            c = st.get("cond")
+            if c and c.get("on"):
+                c["lit"] = cond_value(c["on"], req, hit) != bool(c.get("neg"))
+        for e in d.get("eh", []):
+            if e.get("kind") == "redirect" and e.get("to"):
+                ok, val = render_to(e["to"], req, hit)
+                e["render"] = ok
+                e.pop("rendered", None)
+                if ok and val is not None:
+                    e["rendered"] = val
+    return case
+
 
 # a fixed pool of service configurations (each distinct one costs three listening services in the harness)
 CFGS = [
@@ -53,11 +161,15 @@ def gen_kinds(rng, main):
 
 def gen_cond(rng, where):
     if where == "subject":
-        k = wchoice(rng, [("none", 48), ("true", 10), ("false", 13), ("s1", 9), ("s2", 6), ("err", 4), ("bad", 10)])
+        k = wchoice(rng, [("none", 44), ("true", 8), ("false", 10), ("s1", 9), ("s2", 6), ("err", 4), ("bad", 10),
+                          ("req", 9)])
     else:
-        k = wchoice(rng, [("none", 32), ("true", 5), ("false", 15), ("err", 33), ("s1", 5), ("bad", 10)])
+        k = wchoice(rng, [("none", 30), ("true", 4), ("false", 10), ("err", 30), ("s1", 5), ("bad", 9), ("req", 12)])
     if k == "none":
         return None
+    if k == "req":
+        # an expression over what the client sent; `lit` is filled in by derive()
+        return {"lit": None, "on": rng.choice(COND_ON), "neg": rng.random() < 0.4}
     if k == "true":
         return {"lit": True}
     if k == "false":
@@ -94,8 +206,12 @@ def gen_handler(rng, ident, typ, p_ok):
 def gen_eh(rng, ident):
     kind = wchoice(rng, [("default", 40), ("redirect", 35), ("www", 25)])
     e = {"id": ident, "cond": gen_cond(rng, "error"), "kind": kind}
+    if kind == "www":
+        e["realm"] = wchoice(rng, REALMS)
+        e["rrealm"] = wchoice(rng, RULE_REALMS)
     if kind == "redirect":
-        e["render"] = rng.random() < 0.85
+        e["to"] = wchoice(rng, TO_TEMPLATES)
+        e["render"] = e["to"] != "fail"   # request-dependent templates: filled in by derive()
         e["code"] = wchoice(rng, [(0, 30), (301, 15), (302, 15), (303, 10), (307, 10), (308, 5), (200, 6), (204, 3),
                                   (404, 6)])
     return e
@@ -126,7 +242,7 @@ def gen_case(rng):
     if rng.random() < 0.45:
         cfg["verbose"] = True
     cfg["log"] = wchoice(rng, [("trace", 35), ("debug", 15), ("info", 20), ("warn", 10), ("disabled", 20)])
-    return {
+    return derive({
         "fam": "pipeline",
         "cfg": cfg,
         "rule": gen_doc(rng, "", False) if has_rule else None,
@@ -135,7 +251,8 @@ def gen_case(rng):
         "upstream": rng.choice([200, 200, 201, 204, 404, 500]),
         "style": rng.randrange(4),
         "accept": None if rng.random() < 0.3 else rng.choice(ACCEPTS),
-    }
+        "req": {"hdr": wchoice(rng, HDR_VALUES), "q": wchoice(rng, Q_VALUES)},
+    })
 
 
 # ---------------------------------------------------------------------------------------------------------------
@@ -170,7 +287,16 @@ EH_CLASSES = [
     [{"cond": {"bad": True}, "kind": "default"}],
     [{"cond": {"err": "authorization_error"}, "kind": "redirect", "render": True, "code": 303},
      {"cond": None, "kind": "www"}],
+    # request-dependent configurations: the `to` template reads a header; a template that demands a query parameter
+    # behind a condition on the header, then a multi-line template
+    [{"cond": None, "kind": "redirect", "to": "hdr", "code": 0}],
+    [{"cond": {"lit": None, "on": "hdr", "neg": True}, "kind": "redirect", "to": "need-q-trim", "code": 307},
+     {"cond": None, "kind": "redirect", "to": "ml-q", "code": 0}],
 ]
+# what the client sent, cycled along the enumeration: nothing, a URL in the header, empty values, blank values, a
+# multi-line query value, a blank multi-line query value
+SMALL_REQS = [(None, None), ("https://login.c01.test/in", None), ("", ""), ("  ", "   "),
+              (None, "https://a.c01.test/x\nX-Injected: 1"), (None, " \n \n")]
 
 
 def small_scope_cases():
@@ -182,18 +308,20 @@ def small_scope_cases():
             "auth": [dict(a, id=f"a{i}") for i, a in enumerate(al)],
             "hand": [dict(h, id=f"h{i}", typ="authorizer") for i, h in enumerate(hl)],
             "fin": [dict(f, id=f"f{i}", typ="finalizer") for i, f in enumerate(fl)],
-            "eh": [dict(e, id=f"e{i}") for i, e in enumerate(el)],
+            "eh": [dict(copy.deepcopy(e), id=f"e{i}") for i, e in enumerate(el)],
             "backend": True,
         }
         k = len(cases)
         # verbosity, Accept header and log level cycle through all 110 combinations along the enumeration (the error
-        # pipeline index runs fastest with period 7, coprime to 2, 11 and 5, so every outcome class of a step meets
-        # every combination somewhere in the enumeration)
+        # pipeline index runs fastest with period 9, coprime to 2, 11 and 5, so every outcome class of a step meets
+        # every combination somewhere in the enumeration); the request data changes every 110 cases
         cfg = {"log": LOG_LEVELS[(k // 22) % len(LOG_LEVELS)]}
         if k % 2:
             cfg["verbose"] = True
-        cases.append({"fam": "pipeline", "cfg": cfg, "rule": doc, "default": None,
-                      "hit": True, "upstream": 200, "style": k % 4, "accept": ACCEPTS[(k // 2) % len(ACCEPTS)]})
+        hdr, q = SMALL_REQS[(k // 110) % len(SMALL_REQS)]
+        cases.append(derive({"fam": "pipeline", "cfg": cfg, "rule": doc, "default": None,
+                             "hit": True, "upstream": 200, "style": k % 4,
+                             "accept": ACCEPTS[(k // 2) % len(ACCEPTS)], "req": {"hdr": hdr, "q": q}}))
     return cases
 
 
